@@ -467,13 +467,16 @@ func ZZ_C08_ApiSequences(sv *zzsv.T) {
 		case 'E':
 			if prepared && perr == nil {
 				sv.Assert("C08.api.same_as_prepared_once", errs[n] == (rerr != nil) && (rerr != nil || zzSameObj(sv, outs[n], ro)))
-			} else {
-				sv.Assert("C08.api.unprepared_is_an_error", errs[n])
+			} else if prepared {
+				// a script that Prepare rejected has no program to run
+				sv.Assert("C08.api.rejected_script_does_not_run", errs[n])
 			}
+			// (Execute without any Prepare: only "no panic" is demanded -
+			// preparing on first use would be a legitimate design)
 			n++
 		case 'R':
-			if !prepared || perr != nil {
-				sv.Assert("C08.api.unprepared_is_an_error", errs[n])
+			if prepared && perr != nil {
+				sv.Assert("C08.api.rejected_script_does_not_run", errs[n])
 			}
 			n++
 		}
